@@ -289,6 +289,20 @@ func (s *schemaBuilder) buildFromTextMarshal(tpe types.Type, tgt swaggerTypable)
 	return nil
 }
 
+// isByteSliceElem tells whether encoding/json renders a slice of elem as base64 text: the element is of kind uint8
+// (byte, uint8 or a type defined on them) and a pointer to it implements neither encoding.TextMarshaler nor json.Marshaler.
+func isByteSliceElem(elem types.Type, textMarshaler *types.Interface) bool {
+	basic, ok := elem.Underlying().(*types.Basic)
+	if !ok || basic.Kind() != types.Uint8 {
+		return false
+	}
+	ptr := types.NewPointer(elem)
+	if types.Implements(ptr, textMarshaler) {
+		return false
+	}
+	return types.NewMethodSet(ptr).Lookup(nil, "MarshalJSON") == nil
+}
+
 func (s *schemaBuilder) buildFromType(tpe types.Type, tgt swaggerTypable) error {
 	pkg, err := importer.Default().Import("encoding")
 	if err != nil {
@@ -312,7 +326,7 @@ func (s *schemaBuilder) buildFromType(tpe types.Type, tgt swaggerTypable) error 
 	case *types.Interface:
 		return s.buildFromInterface(s.decl, titpe, tgt.Schema(), make(map[string]string))
 	case *types.Slice:
-		if elem, ok := titpe.Elem().(*types.Basic); ok && elem.Kind() == types.Uint8 {
+		if isByteSliceElem(titpe.Elem(), ifc) {
 			// encoding/json renders []byte as a base64 encoded string
 			tgt.Typed("string", "byte")
 			return nil
